@@ -33,6 +33,7 @@ type Engine struct {
 	axioms    []*Axiom
 	lemmas    []*Lemma
 	strConsts map[string]string // package-level string vars with constant initialisers "pkgpath.Name"
+	intConsts map[string]int64  // package-level int vars with constant initialisers that no function of the repository assigns
 	counter   int
 	heapInfo  map[string]heapLeaf
 	usedRec   map[string]bool
@@ -69,7 +70,7 @@ func loadEngine(repo string) (*Engine, error) {
 	prog.Build()
 	e := &Engine{repo: repo, prog: prog, pkgs: pkgs, ssaPkgs: map[string]*ssa.Package{}, typesPkgs: map[string]*types.Package{},
 		funcs: map[string]*ssa.Function{}, specs: map[string]*FuncSpec{}, specFuncs: map[string]*SpecFunc{},
-		strConsts: map[string]string{}, heapInfo: map[string]heapLeaf{}, usedRec: map[string]bool{},
+		strConsts: map[string]string{}, intConsts: map[string]int64{}, heapInfo: map[string]heapLeaf{}, usedRec: map[string]bool{},
 		loopCache: map[*ssa.Function][]*Loop{}, localIdx: map[*ssa.Function]map[string]*ssa.Alloc{}, cellCache: map[*ssa.Alloc]int{},
 		maxPaths: 4000, assumptionsUsed: map[string]bool{}}
 	if len(pkgs) > 0 {
@@ -124,6 +125,11 @@ func loadEngine(repo string) (*Engine, error) {
 								s := constant.StringVal(tv.Value)
 								e.strConsts[pkgs[i].PkgPath+"."+n.Name] = s
 							}
+							if tv, ok := pkgs[i].TypesInfo.Types[vs.Values[k]]; ok && tv.Value != nil && tv.Value.Kind() == constant.Int {
+								if v, exact := constant.Int64Val(tv.Value); exact {
+									e.intConsts[pkgs[i].PkgPath+"."+n.Name] = v
+								}
+							}
 						}
 					}
 				}
@@ -167,6 +173,21 @@ func loadEngine(repo string) (*Engine, error) {
 				}
 				e.axioms = append(e.axioms, sf.Axioms...)
 				e.lemmas = append(e.lemmas, sf.Lemmas...)
+			}
+		}
+	}
+	// an int variable that some function (other than the package initialiser) stores to is not a constant
+	for _, f := range e.funcs {
+		if f.Name() == "init" {
+			continue
+		}
+		for _, b := range f.Blocks {
+			for _, in := range b.Instrs {
+				if st, ok := in.(*ssa.Store); ok {
+					if g, ok := st.Addr.(*ssa.Global); ok && g.Pkg != nil {
+						delete(e.intConsts, g.Pkg.Pkg.Path()+"."+g.Name())
+					}
+				}
 			}
 		}
 	}
